@@ -39,7 +39,7 @@ def nontrivial(ex_lines):
             if json.loads(ln)["k"] in ran_before: up = True
     return up and rerun
 
-def run_cases(pid, workdir, cases, binary, batch=60, env=None, module="EngineTrace.tla", cfg="EngineTrace.cfg"):
+def run_cases(pid, workdir, cases, binary, batch=60, env=None, module="EngineTrace.tla", cfg="EngineTrace.cfg", keep_execs=False):
     """cases: list of CaseBuilder.  returns dict with counts and rejections."""
     batches = [cases[i:i + batch] for i in range(0, len(cases), batch)]
     def one(ib):
@@ -71,14 +71,20 @@ def run_cases(pid, workdir, cases, binary, batch=60, env=None, module="EngineTra
                             event=(execs[-1][-1] if execs and execs[-1] else ""), violated=None, case=c.text(), cid=c.cid))
         os.unlink(cf)
         if os.path.exists(tf): os.unlink(tf)
+        keep = {}
+        if keep_execs:
+            for ex in execs:
+                try: keep[json.loads(ex[0]).get("id")] = ex
+                except Exception: pass
         return dict(accepted=acc, rejections=rej, states=states, events=events, executions=len(execs), nontrivial=nt,
-                    sample=(execs[0][:40] if execs and i == 0 else None))
+                    sample=(execs[0][:40] if execs and i == 0 else None), execs_by_id=keep)
     results = vlib.parallel(one, list(enumerate(batches)))
-    tot = dict(accepted=0, rejections=[], states=0, events=0, executions=0, nontrivial=set(), sample=None)
+    tot = dict(accepted=0, rejections=[], states=0, events=0, executions=0, nontrivial=set(), sample=None, execs_by_id={})
     for r in results:
         tot["accepted"] += r["accepted"]; tot["rejections"] += r["rejections"]; tot["states"] += r["states"]
         tot["events"] += r["events"]; tot["executions"] += r["executions"]; tot["nontrivial"] |= r["nontrivial"]
         if r["sample"] and not tot["sample"]: tot["sample"] = r["sample"]
+        tot["execs_by_id"].update(r["execs_by_id"])
     return tot
 
 def model_check(cfgname, module, workers=None, timeout=3000, heap="-Xmx20g", simulate=None):
